@@ -163,6 +163,19 @@ pub fn run(c: &mut Collector, a: &Args) {
     k("QUEENSIDE_CASTLE_FILES", chess_lookup::QUEENSIDE_CASTLE_FILES.to_u64(), file_bb(1) | file_bb(2) | file_bb(3), c);
     k("KINGSIDE_CASTLE_SAFE_FILES", chess_lookup::KINGSIDE_CASTLE_SAFE_FILES.to_u64(), file_bb(5) | file_bb(6), c);
     k("QUEENSIDE_CASTLE_SAFE_FILES", chess_lookup::QUEENSIDE_CASTLE_SAFE_FILES.to_u64(), file_bb(2) | file_bb(3), c);
+    // the e.p. rank constants of the colour type: a capturer of colour c stands on its fifth rank and lands on its sixth
+    k("Color::enpassant_pawn_rank[White]", Color::White.enpassant_pawn_rank() as u64, 4, c);
+    k("Color::enpassant_pawn_rank[Black]", Color::Black.enpassant_pawn_rank() as u64, 3, c);
+    k("Color::enpassant_capture_rank[White]", Color::White.enpassant_capture_rank() as u64, 5, c);
+    k("Color::enpassant_capture_rank[Black]", Color::Black.enpassant_capture_rank() as u64, 2, c);
+    for (pp, want) in [
+        (chess_bitboard::PromotionPiece::Knight, chess_bitboard::Piece::Knight),
+        (chess_bitboard::PromotionPiece::Bishop, chess_bitboard::Piece::Bishop),
+        (chess_bitboard::PromotionPiece::Rook, chess_bitboard::Piece::Rook),
+        (chess_bitboard::PromotionPiece::Queen, chess_bitboard::Piece::Queen),
+    ] {
+        k("PromotionPiece::to_piece", pp.to_piece() as u64, want as u64, c);
+    }
     for i in 0..8usize {
         let (st, en) = if i < 4 { (0u64, 3u64) } else { (7, 5) };
         k("CASTLE_ROOK_START", chess_lookup::CASTLE_ROOK_START[i] as u64, st, c);
